@@ -14,6 +14,7 @@ import (
 	"sort"
 	"strconv"
 	"sync"
+	"time"
 )
 
 type modelFile struct {
@@ -217,3 +218,12 @@ func And(a, b bool) bool { return a && b }
 
 // Or is the non-forking disjunction.
 func Or(a, b bool) bool { return a || b }
+
+// Quiesce lets all other goroutines run until none is runnable (engine); natively it sleeps
+// briefly so that goroutines about to exit can do so.
+func Quiesce() { time.Sleep(20 * time.Millisecond) }
+
+// ExploreSchedules switches the exploration of goroutine schedules on or off inside a job that
+// was started with schedule exploration (off = one fixed run-until-block schedule). Natively
+// the Go scheduler decides.
+func ExploreSchedules(on bool) {}
